@@ -104,14 +104,14 @@ STREAMS = {
     "C10": [("multi", 20, 200), ("recover", 10, 100), ("rebuild", 10, 100), ("earlydt", 8, 80)],
     "C11": [("multi", 26, 300), ("rebuild", 8, 100), ("finishing", 8, 80)],
     "C20": [("shocked", 10, 100), ("shortage", 6, 80), ("crash", 8, 80), ("multi", 6, 80), ("eventfree", 4, 60), ("excess", 6, 40),
-            ("earlydt", 6, 60), ("finishing", 4, 40), ("blackout", 6, 60), ("starve", 6, 40)],
+            ("earlydt", 6, 60), ("finishing", 4, 40), ("blackout", 6, 60), ("starve", 6, 40), ("sudden", 4, 40)],
     "C01": [("eventfree", 40, 400)],
     "C08": [("rebuild", 26, 300), ("multi", 10, 100), ("earlydt", 8, 80), ("finishing", 6, 60)],
     "C13": [("units", 24, 200)],
     "C18": [("shocked", 12, 120), ("shortage", 6, 60), ("eventfree", 6, 60)],
     "C03": [("shortage", 18, 300), ("shocked", 12, 200), ("multi", 8, 80), ("finishing", 8, 80)],
     "C04": [("shocked", 20, 300), ("shortage", 12, 200), ("multi", 8, 100), ("rebuild", 6, 80), ("finishing", 8, 80)],
-    "C05": [("shocked", 12, 200), ("shortage", 8, 150), ("crash", 10, 150), ("starve", 8, 60), ("mild", 8, 100)],
+    "C05": [("shocked", 10, 200), ("shortage", 8, 150), ("crash", 8, 150), ("starve", 8, 60), ("mild", 6, 100), ("sudden", 8, 80)],
     "C06": [("shocked", 16, 300), ("shortage", 12, 200), ("mild", 14, 200), ("blackout", 4, 40)],
     "C07": [("shocked", 30, 400), ("excess", 10, 100)],
     "C14": [("shocked", 20, 300), ("shortage", 16, 200), ("earlydt", 10, 100)],
@@ -151,7 +151,7 @@ REPORTED = {"C03": ["production_realised", "production_capacity"], "C04": ["fina
 # per-run oracles, construction obligations, paired-run oracles (names resolved in harness/runner.py)
 RUN_ORACLES = {"C01": ["c01"], "C05": ["c05_run"], "C07": ["c07_capital"], "C08": ["c08_init"], "C11": ["c11_run"]}
 INIT_OBLIGATIONS = {"C01": ["mkparams"], "C02": ["mkparams"], "C03": ["mkparams"], "C06": ["mkparams"], "C07": ["mkparams", "trackerinit"], "C08": ["trackerinit"], "C13": ["trackerinit"], "C18": ["mkparams"]}
-PAIRED = {"C01": ["long_loop_c01"], "C05": ["c05_loop", "long_loop_c05"], "C10": ["c10_prefix", "long_loop"], "C11": ["c11_order", "long_loop_c11"], "C13": ["c13_units"], "C18": ["c18_variants", "c18_orders"],
+PAIRED = {"C01": ["long_loop_c01"], "C05": ["c05_loop", "long_loop_c05"], "C10": ["c10_prefix", "long_loop"], "C08": ["event_reuse"], "C11": ["c11_order", "long_loop_c11", "event_reuse_c11"], "C13": ["c13_units"], "C18": ["c18_variants", "c18_orders"],
           "C19": ["c19_shift", "c19_late"], "C17": ["c17_determinism"]}
 
 # properties whose Lean side includes tables regenerated from the source on every run
